@@ -9,7 +9,7 @@
    to one receiver at equal priority in posting order — [queue] is a FIFO list.
    The same definitions are extracted (coq/extract/Ex_async.v): the check runs [accept_async] on the ticketed
    traces of the real library and [copy_msg_with src_copy_cfg] on the real messages. *)
-From Coq Require Import List Arith.
+From Coq Require Import List Arith Bool.
 Import ListNotations.
 Require Import QtlVerif.AsyncDefs QtlVerif.AsyncProofs QtlVerif.SrcAsync.
 
@@ -69,6 +69,28 @@ Proof.
 Qed.
 Print Assumptions C03_async_equals_sync.
 
+(* 3b. time stamps as the sinks see them THROUGH a formatting handler.  The relative time formats of PatternFormatter
+   (%{time process}, %{time boot}) take their value from the steady time stamp carried by the message, not from the clock
+   at the moment the handler runs (translated from TimeToken::appendToString) ... *)
+Theorem C03_src_relative_time_from_message : andb (tsrc_is_message src_time_process) (tsrc_is_message src_time_boot) = true.
+Proof. vm_compute. reflexivity. Qed.
+Print Assumptions C03_src_relative_time_from_message.
+(* ... hence, for every schedule and WHENEVER the logger thread gets round to a message ([clk_worker] arbitrary), the
+   text a sink behind such a formatter receives is the text of the synchronous run of the same messages in post order *)
+Theorem C03_rendered_time_same_as_synchronous : forall amb fmt clk_worker clk_caller acts,
+  let s := run (copy_msg_with src_copy_cfg amb) s0 acts in quiescent s ->
+  rendered_from TSMessage fmt clk_worker 0 (map snd (slog s)) = rendered_from TSMessage fmt clk_caller 0 (map snd (posted s)).
+Proof.
+  exact (fun amb fmt cw cc acts => rendered_time_async_equals_sync src_copy_cfg amb fmt cw cc
+           (run (copy_msg_with src_copy_cfg amb) s0 acts) C03_src_copy_constructor_complete (ex_intro _ acts eq_refl)).
+Qed.
+Print Assumptions C03_rendered_time_same_as_synchronous.
+(* ... while a formatter that reads the clock when it runs shows the sink the queueing delay: refuted for every message *)
+Theorem C03_rendered_time_from_clock_refuted : forall amb m, exists fmt clk_worker clk_caller,
+  rendered_from TSClock fmt clk_worker 0 [copy_msg_with src_copy_cfg amb m] <> rendered_from TSClock fmt clk_caller 0 [m].
+Proof. exact (rendered_time_from_clock_refuted src_copy_cfg). Qed.
+Print Assumptions C03_rendered_time_from_clock_refuted.
+
 (* 4. FIFO: for every trace the acceptor takes (in particular every trace of the model, see below) the deliveries
    are a prefix of the posts; each producer's messages are posted in program order; and a call that returned
    before another began is delivered first *)
@@ -125,5 +147,9 @@ Example C03_nonvacuous :
                       ACall 1 (ex_m 3 (Some [8])); ARel 0; APost 1; ADone; ARet 0; ARel 1; ATake; ARet 1; ADone; ATake; ADone] in
   map it_id (slog s) = [(1, 0); (0, 0); (1, 1)] /\ quiescent s /\ pending s = 0 /\
   accept_async (fun p => match p with 0 => 1 | 1 => 2 | _ => 0 end) 2 (tr s) = true /\
-  map (fun x => m_file (snd x)) (slog s) = [Some [7]; Some []; Some [8]] /\ sink_view (slog s) = sink_view (posted s).
+  map (fun x => m_file (snd x)) (slog s) = [Some [7]; Some []; Some [8]] /\ sink_view (slog s) = sink_view (posted s) /\
+  (* rendered on the worker at clock 50+k, synchronously at clock k: the same three texts, namely the messages' own stamps *)
+  rendered_from src_time_boot (fun b => 9 :: b) (fun k => [50 + k]) 0 (map snd (slog s)) = [[9; 2]; [9; 1]; [9; 3]] /\
+  rendered_from src_time_process (fun b => 9 :: b) (fun k => [k]) 0 (map snd (posted s)) = [[9; 2]; [9; 1]; [9; 3]] /\
+  rendered_from TSClock (fun b => 9 :: b) (fun k => [50 + k]) 0 (map snd (slog s)) = [[9; 50]; [9; 51]; [9; 52]].
 Proof. vm_compute. repeat split; reflexivity. Qed.
